@@ -349,12 +349,14 @@ def check(ctx):
     n_rowfilter = 0
     for comp in [n for n in body_nodes(lr.node) if isinstance(n, (ast.ListComp, ast.GeneratorExp)) and any(g.ifs for g in n.generators)]:
         g0 = comp.generators[0]
-        if not (isinstance(g0.iter, ast.Name) and isinstance(g0.target, ast.Name)):
+        if not isinstance(g0.target, ast.Name):
             continue
-        # is the iterated list the parsed rows, and is the element kept whole?
-        from ..dataflow import depends_on as _dep12
-        from_parser = any(d.value is not None and any(repo.dotted(lr, c.func) == "csv.reader" for c in ast.walk(d.value) if isinstance(c, ast.Call))
-                          for d in defs_reaching(lr, g0.iter.id, comp))
+        # is the iterated list the parsed rows (by name, or the reader itself), and is the element kept whole?
+        if isinstance(g0.iter, ast.Name):
+            from_parser = any(d.value is not None and any(repo.dotted(lr, c.func) == "csv.reader" for c in ast.walk(d.value) if isinstance(c, ast.Call))
+                              for d in defs_reaching(lr, g0.iter.id, comp))
+        else:
+            from_parser = any(isinstance(c, ast.Call) and repo.dotted(lr, c.func) == "csv.reader" for c in ast.walk(g0.iter))
         if not from_parser or norm(comp.elt) != g0.target.id:
             continue
         n_rowfilter += 1
